@@ -358,3 +358,5 @@ import checks_membership  # noqa: E402,F401
 import checks_packet  # noqa: E402,F401
 import checks_converge  # noqa: E402,F401
 import checks_upstreams  # noqa: E402,F401
+import checks_fd  # noqa: E402,F401
+import checks_rebalance  # noqa: E402,F401
